@@ -92,6 +92,7 @@ type Session struct {
 	InlineGo     bool            // `go f()` runs f inline (stated per harness)
 	LazyGo       bool            // lazy scheduling policy (sched.go); InlineGo = eager policy
 	SchedChoices int             // the first n scheduling points with several candidates are symbolic choices
+	NeedInit     map[*ssa.Global]bool // globals given a value by a package init that is not executed
 	Preemptions  int             // vYield points may hand over to another goroutine at most this often (symbolic)
 	ExtraInits   []*ssa.Function // package initialisers to run before the harness package's
 	// PermuteRanges: functions (ssa names) whose `range` over a map of 2-3 keys
@@ -144,6 +145,7 @@ func (s *Session) init() {
 		s.StubsUsed = map[string]bool{}
 		s.Assumes = map[string]int{}
 		s.violSeen = map[string]bool{}
+		s.computeNeedInit()
 	}
 }
 
@@ -1129,4 +1131,55 @@ func (ex *Explorer) permuteKeys(sm *sortedMapIter) {
 		left = append(left[:k], left[k+1:]...)
 	}
 	sm.keys = append(out, left...)
+}
+
+// computeNeedInit finds the globals that a skipped package initialiser would have set.
+func (s *Session) computeNeedInit() {
+	s.NeedInit = map[*ssa.Global]bool{}
+	var root func(v ssa.Value) *ssa.Global
+	root = func(v ssa.Value) *ssa.Global {
+		switch v := v.(type) {
+		case *ssa.Global:
+			return v
+		case *ssa.IndexAddr:
+			return root(v.X)
+		case *ssa.FieldAddr:
+			return root(v.X)
+		}
+		return nil
+	}
+	for _, pkg := range s.Prog.AllPackages() {
+		if pkg.Pkg == nil || InitAllow(pkg.Pkg.Path()) {
+			continue
+		}
+		if s.Stubs != nil && s.Stubs.ZeroPkgs[pkg.Pkg.Path()] {
+			continue
+		}
+		initFn := pkg.Func("init")
+		if initFn == nil {
+			continue
+		}
+		todo := []*ssa.Function{initFn}
+		seen := map[*ssa.Function]bool{initFn: true}
+		for len(todo) > 0 {
+			fn := todo[0]
+			todo = todo[1:]
+			for _, b := range fn.Blocks {
+				for _, in := range b.Instrs {
+					switch in := in.(type) {
+					case *ssa.Store:
+						if g := root(in.Addr); g != nil && g.Pkg == pkg {
+							s.NeedInit[g] = true
+						}
+					case *ssa.Call:
+						// explicit func init() bodies (init#1 ...)
+						if c := in.Call.StaticCallee(); c != nil && c.Pkg == pkg && strings.HasPrefix(c.Name(), "init#") && !seen[c] {
+							seen[c] = true
+							todo = append(todo, c)
+						}
+					}
+				}
+			}
+		}
+	}
 }
